@@ -1317,6 +1317,129 @@ fn joint_case(tier: Tier, ctx: &mut Ctx) {
 	}
 }
 
+/// E2: the gameplay thread creates a listener, then a spatial track that hears through it, then plays on the track, while the
+/// audio thread runs callbacks. In whatever callback the track's sound is first processed, the listener (created before the
+/// track) exists for the audio thread too: the track is audible from its very first processed callback.
+fn e2_adoption(tier: Tier, nested: bool, ctx: &mut Ctx) {
+	use crate::sched::{self, Config, Exec};
+	fn filt(s: &'static str) -> bool {
+		s.starts_with("res.")
+	}
+	let cfg = Config { filter: filt, horizon: 3000, max_spin_rounds: 8, record_sites: true, ..Default::default() };
+	#[derive(Debug, Clone, Default, PartialEq)]
+	struct Obs {
+		/// per callback: (frames the sound had emitted before, after, some output frame non-zero)
+		cbs: Vec<(u64, u64, bool)>,
+		panics: Vec<String>,
+	}
+	struct Counting(Arc<std::sync::atomic::AtomicU64>);
+	impl Sound for Counting {
+		fn process(&mut self, out: &mut [Frame], _dt: f64, _info: &Info) {
+			out.fill(Frame::new(IN.0, IN.1));
+			self.0.fetch_add(out.len() as u64, std::sync::atomic::Ordering::SeqCst);
+		}
+		fn finished(&self) -> bool {
+			false
+		}
+	}
+	struct CountingData(Arc<std::sync::atomic::AtomicU64>);
+	impl SoundData for CountingData {
+		type Error = ();
+		type Handle = ();
+		fn into_sound(self) -> Result<(Box<dyn Sound>, ()), ()> {
+			Ok((Box::new(Counting(self.0)), ()))
+		}
+	}
+	let mut body = |prefix: &[u8]| -> (sched::RunResult, Obs) {
+		let mut m = mgr();
+		let mut parent = if nested { Some(m.add_sub_track(plain_builder()).expect("parent")) } else { None };
+		let mut buf = vec![0.0f32; 2 * IBS];
+		rig::callback(&mut m, &mut buf, IBS, 2);
+		let mut renderer = m.backend_mut().renderer.take().unwrap();
+		let emitted = Arc::new(std::sync::atomic::AtomicU64::new(0));
+		let obs = Arc::new(Mutex::new(Obs::default()));
+		let keep: Arc<Mutex<Vec<Box<dyn std::any::Any + Send>>>> = Arc::new(Mutex::new(vec![]));
+		let mut ex = Exec::begin(&cfg, prefix);
+		{
+			let (emitted, keep) = (emitted.clone(), keep.clone());
+			ex.spawn("game", move || {
+				let l = m.add_listener(mv([0.0, 0.0, 0.0]), mq(QID)).expect("listener");
+				kira::verif::sync_point("boundary:game");
+				let sp = SpatialTrackBuilder::new().sound_capacity(2).spatialization_strength(0.0).attenuation_function(None);
+				let mut t = match parent.as_mut() {
+					Some(p) => p.add_spatial_sub_track(&l, mv([0.0, 0.0, -1.0]), sp).expect("track"),
+					None => m.add_spatial_sub_track(&l, mv([0.0, 0.0, -1.0]), sp).expect("track"),
+				};
+				kira::verif::sync_point("boundary:game");
+				t.play(CountingData(emitted)).map_err(|_| ()).expect("play");
+				let mut k = keep.lock().unwrap();
+				k.push(Box::new(t));
+				k.push(Box::new(l));
+				k.push(Box::new(parent));
+				k.push(Box::new(m));
+			});
+		}
+		{
+			let (obs, emitted) = (obs.clone(), emitted.clone());
+			ex.spawn("audio", move || {
+				let mut buf = [0.0f32; 2 * IBS];
+				for _ in 0..3 {
+					let before = emitted.load(std::sync::atomic::Ordering::SeqCst);
+					let rep = rig::callback_on(&mut renderer, &mut buf, IBS, 2);
+					if let Some(p) = rep.panic {
+						obs.lock().unwrap().panics.push(p);
+						break;
+					}
+					let after = emitted.load(std::sync::atomic::Ordering::SeqCst);
+					obs.lock().unwrap().cbs.push((before, after, buf.iter().any(|v| *v != 0.0)));
+					kira::verif::sync_point("boundary:audio");
+				}
+				// the renderer is dropped here, after the last explored step
+			});
+		}
+		let res = ex.run();
+		let o = obs.lock().unwrap().clone();
+		keep.lock().unwrap().clear();
+		(res, o)
+	};
+	let mut fails: Vec<(String, String)> = vec![];
+	let mut outcomes = std::collections::HashSet::new();
+	let mut nontrivial = 0u64;
+	let mut judge = |res: &sched::RunResult, o: &Obs, choices: &[u8]| {
+		outcomes.insert(hash64(&format!("{:?}", o)));
+		if choices.iter().any(|c| *c != 0) {
+			nontrivial += 1;
+		}
+		for p in res.panics.iter().chain(o.panics.iter()) {
+			fails.push((format!("panic while a listener and its spatial track are created during a callback: {} :: E2 adoption", rig::normalize_panic(p)), sched::fmt_schedule(res)));
+		}
+		if let Some(k) = o.cbs.iter().position(|c| c.1 > c.0 && !c.2) {
+			fails.push((
+				format!("no listener: a spatial track is silent in a callback in which its sound is processed although its listener was created before it :: E2 adoption{}", if nested { ", track nested under a plain track" } else { "" }),
+				format!("callback {} of the race: the sound emitted {} frames, the output is silent; per callback (emitted before, after, audible) {:?}; schedule {}", k, o.cbs[k].1 - o.cbs[k].0, o.cbs, sched::fmt_schedule(res)),
+			));
+		}
+	};
+	let stats = sched::explore(tier.pick(Some(2), Some(3)), 2_000_000, &mut body, &mut judge);
+	sched::report(ctx, &stats);
+	if let Some(e) = stats.error {
+		ctx.fail(format!("MACHINERY: scheduler error: {}", e), "");
+	}
+	ctx.schedules += stats.schedules;
+	ctx.evals += stats.schedules;
+	ctx.traces += stats.schedules;
+	ctx.transitions += stats.schedules * stats.max_points as u64;
+	ctx.count(&format!("e2_adoption_schedules[nested={}]", nested), stats.schedules);
+	for o in outcomes {
+		ctx.outcome(o);
+		ctx.state(o);
+	}
+	ctx.nontrivial_extra += nontrivial;
+	for (sig, d) in fails {
+		ctx.fail(sig, d);
+	}
+}
+
 /// the direction from an ear to the emitter degenerates when the emitter sits exactly on that ear
 fn ear_positions_case(tier: Tier, ctx: &mut Ctx) {
 	for lpos in listener_positions(tier) {
@@ -1364,6 +1487,7 @@ enum Case {
 	Nesting(u64),
 	Tween(usize),
 	Joint,
+	E2Adoption(bool),
 	/// the emitter exactly at (and a hair next to) one of the listener's ear positions
 	EarPositions,
 }
@@ -1384,6 +1508,8 @@ fn cases(tier: Tier) -> Vec<Case> {
 	v.extend((0..TWEENS.len()).map(Case::Tween));
 	v.push(Case::EarPositions);
 	v.push(Case::Joint);
+	v.push(Case::E2Adoption(false));
+	v.push(Case::E2Adoption(true));
 	v
 }
 
@@ -1410,6 +1536,7 @@ impl Check for C15 {
 			Case::Param(p) => format!("listener-distance mapping {} x 2 easings x 3 listener x 6 emitter positions x 3 moves", PLACEMENTS[p]),
 			Case::Nesting(n) => format!("nesting: {} x emitter lattice x 9 track settings x 3 orientations", NESTINGS[n as usize]),
 			Case::Tween(t) => format!("tween of {} x start/target lattice x 9 track settings x durations x rigid motions", TWEENS[t]),
+			Case::E2Adoption(n) => format!("E2 interleavings: game(add_listener; add_spatial_sub_track{}; play) || audio(3 callbacks), scheduling points = resource-controller steps, free switches between operations: the track is audible in the first callback that processes its sound", if n { " on a plain parent track" } else { "" }),
 			Case::Joint => "listener and emitter translated together by two tweens of the same duration x 5 emitters x orientations x 3 shifts x durations x 9 track settings x device callback patterns (multiples and non-multiples of the internal buffer): the level never moves".into(),
 			Case::EarPositions => "emitter exactly at / a hair next to an ear position (listener +- 0.1 along its right axis) x listener positions x orientations x strengths x curves: finite, ear gains in [1 - s, 1], the emitter's side not quieter".into(),
 		}
@@ -1453,6 +1580,7 @@ impl Check for C15 {
 			Case::Tween(t) => tween_case(tier, t, ctx),
 			Case::EarPositions => ear_positions_case(tier, ctx),
 			Case::Joint => joint_case(tier, ctx),
+			Case::E2Adoption(n) => e2_adoption(tier, n, ctx),
 		});
 		if let Err(p) = r {
 			ctx.fail(format!("panic: {} :: {:?}", p, case), self.describe(tier, idx));
